@@ -44,7 +44,7 @@ class Ctx:
             shutil.copytree(os.path.join(ROOT, 'spec'), d)
         return d
 
-    def tlc(self, module, cfg, args=(), timeout=900, workers=8, expect_ok=True, count=True, files=None,
+    def tlc(self, module, cfg, args=(), timeout=900, workers=int(os.environ.get('VERIF_TLC_WORKERS', '4')), expect_ok=True, count=True, files=None,
             java_opts=None, cfgtext=None):
         """Run TLC on spec/<module>.tla with spec/<cfg>. Returns dict(ok, out, generated, distinct, depth, violated)."""
         d = self.spec_dir()
@@ -58,7 +58,7 @@ class Ctx:
         cmd = ['timeout', str(timeout), 'tlc', '-metadir', meta, '-workers', str(workers), '-config', cfg]
         cmd += list(args) + [module + '.tla']
         env = dict(os.environ)
-        env['JAVA_TOOL_OPTIONS'] = (env.get('JAVA_TOOL_OPTIONS', '') + ' -Xss512m ' + (java_opts or '')).strip()
+        env['JAVA_TOOL_OPTIONS'] = (env.get('JAVA_TOOL_OPTIONS', '') + ' -Xss512m -XX:ParallelGCThreads=4 ' + (java_opts or '')).strip()
         t = time.time()
         p = subprocess.run(cmd, cwd=d, stdout=subprocess.PIPE, stderr=subprocess.STDOUT, text=True, env=env)
         out = p.stdout
@@ -92,7 +92,7 @@ class Ctx:
                                  (module, cfg, p.returncode, r['violated'], out[-3000:]))
         return r
 
-    def tlc_vectors(self, module, cfg, out='vectors.ndjson', timeout=900, workers=8, cfgtext=None, sample=2):
+    def tlc_vectors(self, module, cfg, out='vectors.ndjson', timeout=900, workers=int(os.environ.get('VERIF_TLC_WORKERS', '4')), cfgtext=None, sample=2):
         """Vector mode: every (initial) state of the module is one vector; TLC checks the module's
         invariants on each and dumps them; they are rewritten as ndjson for the harness. Returns the count."""
         from tools import tlaval
